@@ -12,6 +12,7 @@ CONSTANTS
   MaxAt = 9
   FaultKinds <- AllKinds
   FdFix = TRUE
+  EmptyFix = TRUE
   GenFormats = {"xml"}
   GenComps = {"plain"}
   GenScriptLen = 0
